@@ -10,6 +10,9 @@ checks/C02.py and recorded in known_findings.json):
   F6  a container type parameter `*S` is accepted (hseq.New looks through the pointer, nothing
       checks that the container is a struct).
 
+(A third defect found while building this check lies outside the model's `cap == len` reading of the
+variadic `attr`: too few names hidden behind spare slice capacity are accepted; see `short_names_panic`.)
+
 So the full statement
 
     theorem derive_ok_or_panic : ∀ mk T As attr, deriveN mk T As attr is an error, or T is a struct
@@ -118,7 +121,11 @@ theorem missing_type_panics (mk : GoType → GoType → Entry → Except Panic L
     deriveN mk T As [] = .error .errType := by
   rw [deriveN_by_type mk hmk T seq hseq As, mapE_forType_missing seq _ hmiss]
 
-/-- Fewer names than N (but at least one) panics: `attr[0:N]` is out of range — whatever `T` is. -/
+/-- Fewer names than N (but at least one) panics: `attr[0:N]` is out of range — whatever `T` is.
+Modelling assumption: `attr` has `cap == len` (a variadic call with explicit arguments).  Go bounds
+`attr[0:N]` by the CAPACITY; a caller spreading a slice with spare capacity
+(`names := []string{"A","B"}[:1]; ForProduct2[T,X,Y](names...)`) is outside the model and is silently
+accepted by the real code — reproduced by checks/C02.py as known finding `short-names-spare-capacity`. -/
 theorem short_names_panic (mk : GoType → GoType → Entry → Except Panic Lens)
     (T : GoType) (As : List GoType) (attr : List String) (hne : attr ≠ []) (hshort : attr.length < As.length) :
     deriveN mk T As attr = .error .slice := by
